@@ -58,6 +58,21 @@ func genC09(r *Rng, e *Emitter, n int) {
 		FlatCoords() []float64
 	}, ends string) {
 		e.tally("type=" + tag)
+		// the measures are those of the XY coordinates whatever reference system the geometry is
+		// labelled with
+		if gt, ok := g.(geom.T); ok && r.chance(1, 3) {
+			setSRID(gt, []int{4326, 3857, 4269, -1, 900913, 32633}[r.Intn(6)])
+			if p, ok := gt.(*geom.Point); ok {
+				p.SetSRID(4326)
+			}
+			if ls, ok := gt.(*geom.LineString); ok {
+				ls.SetSRID(4326)
+			}
+			if lr, ok := gt.(*geom.LinearRing); ok {
+				lr.SetSRID(4326)
+			}
+			e.tally("srid-set")
+		}
 		e.emit("C09.measure", fmt.Sprintf("(%s %d %s %s)", tag, g.Stride(), sxCoord(g.FlatCoords()), ends),
 			guard(func() string { return fmt.Sprintf("(ok (%s %s))", hexF(g.Area()), hexF(g.Length())) }))
 	}
